@@ -51,6 +51,9 @@ ROWS = [
     (18, 'ENotImpl', W + ['--load=5', '--rlc-load=1,1e-6,', '--attach-load=2,2', '--attach-load=1,1', '--output-basic-input=/nonexistent-dir/x.mini']),
     (18, 'ENotImpl', W + ['--rlc-load=1,1e-6,', '--attach-load=1,2', '--skin-effect-conductivity=1e6', '--output-basic-input=/nonexistent-dir/x.mini']),
     (18, 'ENotImpl', W + ['--trap-load=1,1e-6,1e-9', '--attach-load=1,2', '--insulation-load=0.002,2.5', '--output-basic-input=/nonexistent-dir/x.mini']),
+    # a sweep that succeeds at its first step and fails later: still only the diagnostic
+    (19, 'EFloat', ['-f', '7.5', '--frequency-steps=2', '--frequency-increment=-1', '--load=-70', '--attach-load=1,5']),
+    (20, 'EFloat', ['-f', '7.5', '--frequency-steps=2', '--frequency-increment=-1', '--option=far-field-absolute', '--ff-distance=1e-320']),
     (21, None, W),
 ]
 
